@@ -360,7 +360,15 @@ def check_tamper(ctx, case, full=False):
                {'name': oname, 'secret': secret, 'data': case['other_data']}]
     emitted = set_and_collect(cookies)
     foreign = set_and_collect([{'name': name, 'secret': osecret, 'data': case['data']}])
-    (jar1, v1), (jar2, v2) = read_back('; '.join(emitted.values()), [(name, secret), (oname, secret)])
+    # on ONE request object: the right secret, then another secret (must read as absent), then the right one again
+    (jar1, v1), (_, vwrong), (_, vagain), (jar2, v2) = read_back('; '.join(emitted.values()), [(name, secret), (name, osecret), (name, secret), (oname, secret)])
+    if vwrong != SENTINEL:
+        raise CheckFailure(f'cookie {name!r} read with another secret ({osecret!r}) on a request object that had just verified it with the right one -> {vwrong!r}')
+    if not same(vagain, from_plain(case['data'])):
+        raise CheckFailure(f'cookie {name!r} read again with the right secret after a read with a wrong one -> {vagain!r}')
+    (_, vw2), (_, vr2) = read_back('; '.join(emitted.values()), [(name, osecret), (name, secret)])
+    if vw2 != SENTINEL or not same(vr2, from_plain(case['data'])):
+        raise CheckFailure(f'cookie {name!r}: wrong secret first -> {vw2!r}, then the right one -> {vr2!r}')
     if not same(v1, data):
         raise CheckFailure(f'untampered signed cookie does not read back: {v1!r} vs {data!r}')
     S, S2 = jar1, jar2
